@@ -25,6 +25,7 @@ the application's, after every frame.
 import VaxisModel.Props.C12Any
 import VaxisModel.Props.C06Bridge
 import VaxisModel.Props.C12StartAny
+import VaxisModel.Model.C12Ref
 
 namespace VaxisModel.Props.C12Bridge
 open VaxisModel.Model.Render VaxisModel.Spec VaxisModel.Spec.Display VaxisModel.Lemmas.RenderGate
@@ -365,6 +366,38 @@ theorem rel_resizedP (dec : String → G) (hdec : DecOk dec) (rows cols : Nat) (
       intro j d t hd' ht'
       rw [rep _ _ _ _ hd', rep _ _ _ _ ht']
       rfl
+
+/-! ### the executable copies used by the driver are the bridge's definitions -/
+
+/-- `Model.C12Ref.refTok` (run by the driver on every frame) is the bridge's translation `tokT`. -/
+theorem refTok_eq (dec : String → G) (tw : String → Nat) (k : Tok) : Model.C12Ref.refTok dec tw k = tokT dec tw k := by
+  cases k <;> rfl
+
+/-- `Model.C12Ref.refRun` is the bridge's `runExact`. -/
+theorem refRun_eq : ∀ (ks : List Spec.Term.Tok) (t : T), Model.C12Ref.refRun t ks = runExact t ks
+  | [], _ => rfl
+  | k :: ks, t => by
+    simp only [Model.C12Ref.refRun, runExact]
+    cases h : Spec.Term.step t k with
+    | unconstrained => rfl
+    | accept l =>
+      match l with
+      | [] => rfl
+      | [t'] => exact refRun_eq ks t'
+      | _ :: _ :: _ => rfl
+
+/-- `Model.C12Ref.refAccepts t e cols = none` is the conjunction `emu_and_term_show` concludes (plus the
+    cursor column when no wrap is pending). -/
+theorem refAccepts_none (t : T) (e : Emu) (cols : Nat)
+    (h1 : Spec.Term.gridAccepts t.primary (e.active.map Model.EmuAbs.absRow) = true)
+    (h2 : (t.row : Int) = e.cur.row) (h3 : t.pw = decide (e.cur.col ≥ (cols : Int)))
+    (h3' : t.pw = false → (t.col : Int) = e.cur.col)
+    (h4 : t.pen = Model.EmuAbs.absStyle e.cur.st) (h5 : t.link = e.cur.st.link)
+    (h6 : t.cursorVisible = e.mode.dectcem) (h7 : (t.cursorShape : Int) = e.cur.shape) :
+    Model.C12Ref.refAccepts t e cols = none := by
+  cases hp : t.pw with
+  | true => simp [Model.C12Ref.refAccepts, h1, h2, ← h3, hp, h4, h5, h6, h7]
+  | false => simp [Model.C12Ref.refAccepts, h1, h2, ← h3, hp, h3' hp, h4, h5, h6, h7]
 
 /-- Non-vacuity of `DecOk` together with the other decoder hypotheses: the table decoder of the examples. -/
 example : DecOk C06Bridge.dec0 ∧ C06Bridge.dec0 "20" = [32] ∧ C06Bridge.dec0 "" = [] := ⟨C06Bridge.decOk0, by decide, by decide⟩
